@@ -17,7 +17,7 @@ within 2 µs of UTC midnight and on the neighbouring doubles of midnight itself)
 * `eopForF_record_of_utc_day` — hence, outside those two sub-microsecond bands, the code carries **the record tabulated for
   the UTC day of the date**, the one `Model/Date.lean` (`eopFor`, `mk_record_of_utc_day`) picks; inside them it may pick the
   neighbouring day's (that is the whole set: for clock readings in whole microseconds, only a UTC reading of exactly
-  00:00:00.000000 — `Witness/C03.lean midnight_exact_is_in_doubt`).
+  00:00:00.000000 — none was found to differ; at 0.3 µs before midnight they do: `Witness/C03.lean sub_microsecond_band_differs`).
 -/
 namespace BeyondVerif.C03
 open BeyondVerif.Date
